@@ -47,7 +47,8 @@ func (r Reader) Read(source interface{}) (Document, error) {
 }
 
 // ReadBytes transforms a JSON-LD string to a Document (expanded JSON-LD)
-func (r Reader) ReadBytes(asJSON []byte) (Document, error) {
+func (r Reader) ReadBytes(asJSON []byte) (doc Document, err error) {
+	defer recoverProcessorPanic(&err)
 	compact := make(map[string]interface{})
 	if err := json.Unmarshal(asJSON, &compact); err != nil {
 		return nil, err
